@@ -944,15 +944,9 @@ fn g_equals_ignore_case(cfg: &Cfg, src: &mut Src, out: &mut Vec<Q>) {
 		_ => b = gen_str_x(cfg, src, 64, EDGE),
 	}
 	let ascii_eq = r_lower(&a) == r_lower(&b);
-	let uni_eq = st(&a).to_lowercase() == st(&b).to_lowercase() || st(&a).to_uppercase() == st(&b).to_uppercase();
-	// "case insensitive comparison": ASCII folding is certain, folding of other letters is not pinned down
-	let want = if ascii_eq {
-		Want::Is(J::Bool(true))
-	} else if uni_eq {
-		Want::Any
-	} else {
-		Want::Is(J::Bool(false))
-	};
+	// the definition in std.jsonnet is `std.asciiLower(str1) == std.asciiLower(str2)`: only A-Z / a-z are folded
+	// (until round 3 of the seeded changes the folding of other letters was left open here)
+	let want = Want::Is(J::Bool(ascii_eq));
 	out.push(q("equalsIgnoreCase", format!("std.equalsIgnoreCase({}, {})", litc(&a), litc(&b)), want, is_wide(&a) || is_wide(&b), Some(&a)));
 }
 
